@@ -1,11 +1,12 @@
 #!/bin/sh
-# usage: tools/soak.sh <nseeds> [ids...]   runs every claimed check with seeds 1..n (quick tier); prints failures
+# usage: [SOAK_START=k] tools/soak.sh <nseeds> [ids...]   runs every claimed check with seeds k..k+n-1 (default k=1; quick tier); prints failures
 N=${1:-3}; shift
 IDS="$@"
 if [ -z "$IDS" ]; then IDS=$(/venv/bin/python -c "import json;print(' '.join(c['property_id'] for c in json.load(open('MANIFEST.json'))['checks']))" 2>/dev/null | grep -v conda); fi
 FAIL=0
 for id in $IDS; do
-  for s in $(seq 1 $N); do
+  S0=${SOAK_START:-1}
+  for s in $(seq $S0 $((S0 + N - 1))); do
     OUT=$(VERIF_SEED=$s ./check $id --tier quick 2>&1); RC=$?
     if [ $RC -ne 0 ]; then echo "FAIL $id seed=$s rc=$RC"; echo "$OUT" | grep -v conda | tail -5; FAIL=1; fi
   done
